@@ -34,6 +34,10 @@ func init() {
 					Quick:    {Depth: 3, Budget: 150 * time.Second, ReplayEvery: 16},
 					Thorough: {Depth: 5, Budget: 25 * time.Minute, ReplayEvery: 32, MaxStates: 400000},
 				}},
+				{S: withAnnotate(unionScenario(unionOpts{name: "union-halt-gov-order", extreme: true, govOrder: true}), annotateHalt), Opt: map[Tier]Options{
+					Quick:    {Depth: 3, Budget: 100 * time.Second, ReplayEvery: 16},
+					Thorough: {Depth: 5, Budget: 20 * time.Minute, ReplayEvery: 32, MaxStates: 400000},
+				}},
 				{S: withAnnotate(unionScenario(unionOpts{name: "union-atomic", multi: true}), annotateHalt), Opt: map[Tier]Options{
 					Quick:    {Depth: 3, Budget: 100 * time.Second, ReplayEvery: 16},
 					Thorough: {Depth: 5, Budget: 20 * time.Minute, ReplayEvery: 32, MaxStates: 500000},
